@@ -10,6 +10,7 @@ import HttpcoreModel.Drv.Unasync
 import HttpcoreModel.Drv.Sys
 import HttpcoreModel.Drv.Life
 import HttpcoreModel.Drv.Backend
+import HttpcoreModel.Drv.Wrap
 /-!
 Line-protocol driver: one case per input line, one answer per output line.
 First token selects the model function.  Imports model files only (no proofs, no Mathlib).
@@ -42,6 +43,7 @@ def dispatch (line : String) : String :=
     else if cmd = "life2" then Drv.life2 args
     else if cmd = "life1" then Drv.life1 args
     else if cmd = "bwrite" then Drv.bwrite args
+    else if cmd = "wrap" then Drv.wrapCmd args
     else "bad-cmd"
 
 partial def loop (h : IO.FS.Stream) (out : IO.FS.Stream) : IO Unit := do
